@@ -11,6 +11,8 @@ Pure functions, no I/O:
     first_view(start, prods, I)     the FIRST part only (used for the Emboss grammar)
     compare(view, model)            list of human-readable differences, each prefixed with its aspect
     compare_first(view, entries)    the FIRST part of compare
+    productivity_view(prods, I)     the marks of the productivity fixed point in the order Gen2.prod_marks finds them
+    certify_case(...)               one case (Coq input term, expected output term) of LR/GenExec.certify
 
 Vocabulary shared with LR/Exec.enc_gen: symbols are the numbers of the run's Interner `I`
 (I.s(name), I.sym_names[n]); a FIRST element is 0 for epsilon (Python None) or t+1 for the
@@ -583,3 +585,65 @@ def aspects_of(diffs):
         else:
             out.update(ASPECTS)
     return out
+
+
+# ----------------------------------------------------------------------------
+# certificates of LR/GenCert2.v (LR/GenExec.certify, evaluated inside Coq by fw.CoqCases)
+# ----------------------------------------------------------------------------
+
+def productivity_view(prods, I):
+    """[(X, round)] in the order LR.GenCert2.prod_marks marks the nonterminals: round k marks, in the order
+    of the production list and each once, the left-hand sides not yet marked that have a production whose
+    nonterminals were all marked in earlier rounds; (marks, unproductive nonterminals)."""
+    prods = list(prods)
+    nts = set(p.lhs for p in prods)
+    rank = {}
+    order = []
+    k = 0
+    while True:
+        k += 1
+        new = []
+        for p in prods:
+            if p.lhs in rank or p.lhs in new:
+                continue
+            if all((x not in nts) or (x in rank) for x in p.rhs):
+                new.append(p.lhs)
+        if not new:
+            break
+        for x in new:
+            rank[x] = k
+            order.append(x)
+    return [(I.s(x), rank[x]) for x in order], sorted(nts - set(rank))
+
+
+def _coq_lines(lines):
+    return "[ " + "; ".join("[" + "; ".join(str(int(n)) for n in l) + "]" for l in lines) + " ]"
+
+
+def certify_case(start, prods, tab, slot, view, I, eoi, sp, table_lines):
+    """(input term, expected term) for LR.GenExec.certify on one grammar whose parser lr1 built:
+    input  = (definition lines of lr1's tables + item cores in `slot`, grammar slot, table slot, eoi, S', collection fuel)
+    output = lr1_certify ++ gen_certify, see LR/GenExec.v.
+    Expected: the known-suffix certificate built from lr1's own item sets validates lr1's own tables (1), the
+    rank certificate is accepted iff every nonterminal is productive; on the model's tables check_sound and
+    check_early hold (theorems generate_pass_check_sound / generate_pass_check_early), all_productive and
+    check_productive (pcert_of) = productive, gen_clean = (lr1 returned a parser without conflicts), and the
+    marks equal productivity_view."""
+    prods = list(prods)
+    need = set(I.p(p) for p in prods) | set(tab.prods)
+    for st in tab.action:
+        for e in tab.action[st]:
+            if e[1] == 1:
+                need.add(e[2])
+    plines = [[2, k, I.sym[l]] + [I.sym[x] for x in r] for k, (l, r) in enumerate(I.prod_vals) if k in need]
+    lines = plines + [l for l in table_lines(tab, slot, I, eoi, tab.item_lines)]
+    lines.append([9, slot, I.s(start)] + [I.p(p) for p in prods])
+    marks, unproductive = productivity_view(prods, I)
+    productive = 0 if unproductive else 1
+    clean = 1 if (view["parser"] is not None and not view["parser"]["conflicts"]) else 0
+    sf = fuels(view)[2]
+    expect = [1, productive, 1, 1, 1, productive, productive, clean, len(marks)]
+    for x, r in marks:
+        expect += [x, r]
+    inp = "(%s, %d, %d, %d, %d, %d)" % (_coq_lines(lines), slot, slot, eoi, sp, sf)
+    return inp, "[" + "; ".join(str(n) for n in expect) + "]", dict(expect=expect, marks=marks, unproductive=unproductive)
